@@ -1,9 +1,10 @@
 (* C08 -- cross-approximation interpolates its samples and evaluates the function only at grid points; min/max
    estimates are attained values.  Statements only.  Model: Model/Cross.v (executable, oracles replayed:
    function table, maxvol rows, QR factor, random integers, number of iterations).  Proofs: Proofs/CrossP.v, CrossR.v.
-   NOT proved here (exploration level only, harness/props/c08.py): the exact-recovery clause (representable targets are
-   reproduced on the whole grid) and its consequence for the operators routed through cross. *)
-From TN Require Import Proofs.CrossP Proofs.CrossR Model.Cross Alg.Inst.
+   Exact recovery is proved at the algebra level (C08_cur_exact, C08_exact_recovery_sweep, C08_qr_core_is_skeleton_core);
+   NOT proved: that the executable replayed run's cores satisfy those hypotheses (factorisation of the unfoldings,
+   invertible intersections are hypotheses), and the consequence for the operators routed through cross. *)
+From TN Require Import Proofs.CrossP Proofs.CrossR Proofs.CrossRun Proofs.CrossRecover Model.Cross Alg.Inst.
 From Coq Require Import QArith Reals.
 
 Section C08.
@@ -59,6 +60,38 @@ Theorem C08_argument_is_entry : forall (pre post : list (cdata K)) (c : cdata K)
        (c_matvec c i (rvec post idxr (last_rr r0 (map (score_of K) (pre ++ c :: post))))) =
   den (map (fun c => mkMode c None) (pre ++ c :: post)) (idxl ++ i :: idxr).
 Proof. exact (eval_arg_is_tensor_entry K Kth). Qed.
+
+(* ---- exact recovery (skeleton / CUR argument) ---- *)
+(* matrix case, any index types: A = X Y through inner dimension r, A[I,J] W = I, U X[I,:] = I  ==>
+   A = A[:,J] (W A[I,:]) on all admissible rows and columns *)
+Theorem C08_cur_exact : forall (RI CI : Type) (r : nat) (A : RI -> CI -> K) (X : RI -> nat -> K) (Y : nat -> CI -> K)
+    (PR : RI -> Prop) (PC : CI -> Prop) (rowsel : nat -> RI) (colsel : nat -> CI) (W U : nat -> nat -> K),
+  (forall i c, PR i -> PC c -> A i c = sumn r (fun s => X i s * Y s c)) ->
+  (forall t, (t < r)%nat -> PR (rowsel t)) -> (forall a, (a < r)%nat -> PC (colsel a)) ->
+  (forall t a, (t < r)%nat -> (a < r)%nat -> sumn r (fun a' => A (rowsel t) (colsel a') * W a' a) = delta t a) ->
+  (forall s s', (s < r)%nat -> (s' < r)%nat -> sumn r (fun t => U s t * X (rowsel t) s') = delta s s') ->
+  forall i c, PR i -> PC c ->
+    sumn r (fun a => A i (colsel a) * sumn r (fun t => W a t * A (rowsel t) c)) = A i c.
+Proof. exact (cur_exact K Kth). Qed.
+
+(* all modes, one right-to-left sweep (and cross_forward's formula): first core = sampled first-mode fibres, core j =
+   W_j x (fibres of the target through lsets[j] x mode j x rsets[j]); if every unfolding of the target factors through
+   the rank used (TT ranks <= ranks used) and the intersections / factor blocks are invertible ([recov]), the network
+   equals the target on the WHOLE grid *)
+Theorem C08_exact_recovery_sweep : forall (T : list nat -> K) (c0 : score K) (cs : list (score K)) (lvs : list (level K)),
+  rl c0 = 1%nat -> rr c0 = next_r K lvs ->
+  (forall i b, (b < next_r K lvs)%nat -> sl c0 i 0%nat b = T (i :: next_R K lvs b)) ->
+  recov K T 1 cs lvs ->
+  forall i idx, length idx = length cs -> eval (c0 :: cs) (i :: idx) = T (i :: idx).
+Proof. exact (tt_recovery K Kth). Qed.
+
+(* the cores cross actually builds, Q Q[local]^-1 with Q from an exact QR of the sampled unfolding, have that form *)
+Theorem C08_qr_core_is_skeleton_core : forall (r : nat) (Vt Qm Rf Binv W : nat -> nat -> K) (loc : nat -> nat),
+  (forall x a, (a < r)%nat -> Vt x a = sumn r (fun s => Qm x s * Rf s a)) ->
+  (forall s s', (s < r)%nat -> (s' < r)%nat -> sumn r (fun k => Binv s k * Qm (loc k) s') = delta s s') ->
+  (forall a a', (a < r)%nat -> (a' < r)%nat -> sumn r (fun t => W a t * Vt (loc a') t) = delta a a') ->
+  forall x a, (a < r)%nat -> mmulK K r Qm Binv x a = sumn r (fun t => W a t * Vt x t).
+Proof. exact (qr_core_form K Kth). Qed.
 End C08.
 Local Open Scope nat_scope.
 
@@ -97,6 +130,21 @@ Theorem C08_run_in_grid : forall ts Is ftab ranks kick rmax randint its, 0 < len
   sets_ok Is (x_ls s) (x_rs s).
 Proof. exact run_in_grid. Qed.
 
+(* whole run, value level: every argument vector the implementation passed to the function (recorded in the replayed
+   steps) is, in order, the vector of dense entries of the given tensors at the points the model requested, which lie
+   in the grid; the stored interface matrices are init_interfaces / partial products of the current index sets *)
+Theorem C08_run_arguments_are_entries : forall ts Is ftab ranks kick rmax randint its, 0 < length Is -> wf_ts ts Is ->
+  (forall row, In row randint -> rrow_ok Is 0 row) ->
+  (forall it row, In it its -> In row (it_extra it) -> rrow_ok Is 0 row) ->
+  let s := cross_run ts Is ftab ranks kick rmax randint its in
+  x_ok s = true ->
+  (forall k, k < length ts ->
+     Forall2 Qeq (flat_map (fun sp => nth k (st_xs sp) []) (flat_map it_steps its))
+                 (map (fun p => den (map (fun c => mkMode c None) (nth k ts [])) p) (rev (x_evals s)))) /\
+  (forall p, In p (rev (x_evals s)) -> in_range Is p = true) /\
+  (forall j, j < length Is -> RVat ts s j) /\ LVat ts s 0.
+Proof. exact run_arguments_are_entries. Qed.
+
 (* min/max: the reported position is one of the evaluated points; an attained value is never below the minimum of
    the table; over the reals the stored estimate tan(pi/2 - (pi/2 - atan(f - m))) + m is the sampled value *)
 Theorem C08_argmin_evaluated : forall ts Is ftab ranks kick rmax randint its p,
@@ -116,6 +164,10 @@ Print Assumptions C08_interpolation.
 Print Assumptions C08_rinterface_consistent.
 Print Assumptions C08_linterface_consistent.
 Print Assumptions C08_argument_is_entry.
+Print Assumptions C08_cur_exact.
+Print Assumptions C08_exact_recovery_sweep.
+Print Assumptions C08_qr_core_is_skeleton_core.
+Print Assumptions C08_run_arguments_are_entries.
 Print Assumptions C08_point_in_grid.
 Print Assumptions C08_lsets_nested.
 Print Assumptions C08_rsets_nested.
